@@ -190,7 +190,10 @@ EXTRA = {
             " That proof obligation exposed and removed a false alarm of the monitor as first written (guarded by the reported "
             "ncomp, which is the count after re-merging)." + SRC('CeiloChunk._get_min_sep_for_height', 'C06_src_*') + KF),
     'C07': MON,
-    'C08': " API level: C08_api_total (any argument: AmpycloudError from the consistency check, or a chunk) and C08_metar_total." + KF,
+    'C08': (" API level: C08_api_total (any argument: AmpycloudError from the consistency check, or a chunk) and C08_metar_total." + KF +
+            " Assumption A3 (the selected mixture has no unpopulated component) is a theorem in mode delta for non-negative scores and "
+            "gain <= 1 (C08_selected_populated_delta, C08_run_total_delta), with witnesses that neither condition can be dropped "
+            "(C08_penalty_limits)." + SRC('layer.best_gmm (mode delta)', 'C08_src_*')),
     'C17': MON + SRC('icao.significant_cloud', 'C17_src_*'),
     'C18': MON + SRC('wmo.okta2code, height2code and perc2okta', 'C18_src_*'),
     'C19': SRC('scaler.minrange2minmax, shift_and_scale and minmax_scale', 'C19_src_*'),
